@@ -32,6 +32,7 @@ type concObj struct {
 	s  *stack.Stack[int]
 	ls *stack.LStack[int]
 	h  *heap.Heap[int]
+	h2 *heap.Heap[int] // a second shared heap (Merge/Meld between two shared instances)
 	hc int
 	b  *bstree.BsTree[int, int]
 	t  *trie.Trie[string, int]
@@ -177,7 +178,24 @@ func (x *concObj) doHeap(o tt.Op) tt.Res {
 	case "new":
 		x.hc = o.A[0]
 		x.h = heap.NewHeap(heapCmps[x.hc])
+		x.h2 = heap.NewHeap(heapCmps[x.hc])
 		return tt.Res{Ok: true}
+	case "pushn": // one variadic Push
+		x.h.Push(o.A...)
+		return tt.Res{Ok: true}
+	case "pushB":
+		x.h2.Push(o.A[0])
+		return tt.Res{Ok: true}
+	case "sizeB":
+		return tt.Res{Ok: true, V: x.h2.Size()}
+	case "mergeAB":
+		return tt.Res{Ok: true, V: x.h.Merge(x.h2).Size()}
+	case "mergeBA":
+		return tt.Res{Ok: true, V: x.h2.Merge(x.h).Size()}
+	case "meldAB":
+		return tt.Res{Ok: true, V: x.h.Meld(x.h2).Size()}
+	case "meldBA":
+		return tt.Res{Ok: true, V: x.h2.Meld(x.h).Size()}
 	case "push":
 		x.h.Push(o.A[0])
 		return tt.Res{Ok: true}
@@ -405,6 +423,8 @@ type concType struct {
 	inits [][]tt.Op
 	ops   func(th, i int) []tt.Op // operations a thread may perform as its i-th call
 	post  []tt.Op
+	// hand-picked programs of three threads that the quick tier runs as well
+	directed []concDirected
 }
 
 func trieKey(s string) []int { return bytesOf(s) }
@@ -458,6 +478,16 @@ func concTypes() []concType {
 				v := th*10 + i
 				return []tt.Op{fop("bstree", "upsert", 2, v), fop("bstree", "upsert", 4, v), fop("bstree", "get", 2), fop("bstree", "delete", 2), fop("bstree", "delete", 4), fop("bstree", "size")}
 			},
+			// three overlapping calls on two leaves and below one of them (a check-then-act on the size or on
+			// a remembered parent needs a third party to look unchanged)
+			directed: []concDirected{
+				{init: []tt.Op{fop("bstree", "new", 0), fop("bstree", "upsert", 2, 1), fop("bstree", "upsert", 1, 2), fop("bstree", "upsert", 3, 3), fop("bstree", "upsert", 4, 4)},
+					threads: [][]tt.Op{{fop("bstree", "delete", 1)}, {fop("bstree", "delete", 4)}, {fop("bstree", "upsert", 0, 9)}}},
+				{init: []tt.Op{fop("bstree", "new", 0), fop("bstree", "upsert", 2, 1), fop("bstree", "upsert", 1, 2), fop("bstree", "upsert", 3, 3), fop("bstree", "upsert", 4, 4)},
+					threads: [][]tt.Op{{fop("bstree", "delete", 4)}, {fop("bstree", "delete", 1)}, {fop("bstree", "upsert", 5, 9)}}},
+				{init: []tt.Op{fop("bstree", "new", 0), fop("bstree", "upsert", 2, 1), fop("bstree", "upsert", 1, 2), fop("bstree", "upsert", 3, 3)},
+					threads: [][]tt.Op{{fop("bstree", "delete", 3)}, {fop("bstree", "upsert", 4, 8)}, {fop("bstree", "delete", 1)}}},
+			},
 			post: []tt.Op{fop("bstree", "size"), fop("bstree", "trav"), fop("bstree", "get", 2), fop("bstree", "get", 4)}},
 		{name: "trie", f: "trie",
 			inits: [][]tt.Op{{fop("trie", "new")}, {fop("trie", "new"), fop("trie", "put", tk(1, "ab")...)}},
@@ -472,10 +502,16 @@ func concTypes() []concType {
 				{fop("cache", "new", 4, 0), fop("cache", "set", 0, 1, 0), fop("cache", "tick", 5)}},
 			ops: func(th, i int) []tt.Op {
 				v := th*10 + i
-				return []tt.Op{fop("cache", "set", 0, v, 0), fop("cache", "set", 1, v, 0), fop("cache", "get", 0), fop("cache", "update", 0, v, 0), fop("cache", "delete", 0), fop("cache", "count")}
+				return []tt.Op{fop("cache", "set", 0, v, 0), fop("cache", "set", 1, v, 0), fop("cache", "get", 0), fop("cache", "update", 0, v, 0), fop("cache", "delete", 0), fop("cache", "count"),
+					fop("cache", "delexp")} // what the background cleanup does, as a call
 			},
 			post: []tt.Op{fop("cache", "count"), fop("cache", "get", 0), fop("cache", "get", 1)}},
 	}
+}
+
+type concDirected struct {
+	init    []tt.Op
+	threads [][]tt.Op
 }
 
 // concPrograms enumerates the thread shapes: 2 threads x (2,1) calls, and with full also
@@ -495,6 +531,9 @@ func concPrograms(ct concType, full bool) []concProg {
 			res = nx
 		}
 		return res
+	}
+	for _, d := range ct.directed {
+		out = append(out, concProg{Ty: ct.name, Init: d.init, Threads: d.threads, Post: ct.post})
 	}
 	shapes := [][]int{{2, 1}, {1, 1}}
 	if full {
